@@ -95,7 +95,20 @@ func genC12(rng *rand.Rand, n int, emit func(Case), dist map[string]int) {
 		tl := lens[rng.Intn(len(lens))]
 		ran := false
 		ctxTok := ""
-		mw := middleware.CSRFWithConfig(middleware.CSRFConfig{TokenLookup: lk, TokenLength: tl})(func(c echo.Context) error {
+		csrfCfg := middleware.CSRFConfig{TokenLookup: lk, TokenLength: tl}
+		deniedBy := 0
+		if rng.Intn(3) == 0 {
+			// an error handler that answers by itself and returns nil (the documented way to customise the rejection)
+			csrfCfg.ErrorHandler = func(err error, c echo.Context) error {
+				deniedBy = 500
+				if he, isHE := err.(*echo.HTTPError); isHE {
+					deniedBy = he.Code
+				}
+				return c.NoContent(deniedBy)
+			}
+			dist["instances_with_custom_error_handler"]++
+		}
+		mw := middleware.CSRFWithConfig(csrfCfg)(func(c echo.Context) error {
 			ran = true
 			ctxTok, _ = c.Get("csrf").(string)
 			return nil
@@ -194,8 +207,8 @@ func genC12(rng *rand.Rand, n int, emit func(Case), dist map[string]int) {
 			}
 			probe.ParseMultipartForm(32 << 20)
 			rec := httptest.NewRecorder()
-			c := e.NewContext(req, rec)
-			ran, ctxTok = false, ""
+			c := recycledContext(e, req, rec)
+			ran, ctxTok, deniedBy = false, "", 0
 			code := 0
 			panicked := false
 			func() {
@@ -210,6 +223,8 @@ func genC12(rng *rand.Rand, n int, emit func(Case), dist map[string]int) {
 					} else {
 						code = 500
 					}
+				} else if deniedBy != 0 {
+					code = deniedBy // rejected through the custom error handler
 				}
 			}()
 			setCookie := ""
